@@ -19,10 +19,12 @@ Open Scope Z_scope.
 
 (* ---------- outcomes: value | IllegalMove | any other exception ---------- *)
 Inductive exn :=
-  IndexError | TypeError | ValueError | KeyError | AssertionError | AttributeError | ZeroDivisionError.
+  IndexError | TypeError | ValueError | KeyError | AssertionError | AttributeError | ZeroDivisionError
+| Unmodelled      (* an input on which PySem takes no position (see py_int_str) *)
+| OutOfFuel.      (* a `while` loop ran longer than the fuel the translator was told to give it *)
 Inductive res (A : Type) : Type :=
 | Ok (v : A)          (* the statement / expression completed with value v *)
-| Illegal             (* raise IllegalMove(...) *)
+| Illegal             (* raise IllegalMove(...) in game.py / raise IllegalTPS(...) in tps.py: the module's own refusal *)
 | Crash (e : exn).    (* any other exception *)
 Arguments Ok {A} v.
 Arguments Illegal {A}.
@@ -104,6 +106,14 @@ Definition py_tuple2_get {A} (t : A * A) (i : Z) : res A :=
   end.
 Definition py_tuple2_list {A} (t : A * A) : list A := [fst t; snd t].
 
+(* head, *rest = l : ValueError ("not enough values to unpack") on an empty list *)
+Definition py_uncons {A} (l : list A) : res (A * list A) :=
+  match l with [] => Crash ValueError | h :: t => Ok (h, t) end.
+
+(* == on tuples of two *)
+Definition pair_eqb {A B} (ea : A -> A -> bool) (eb : B -> B -> bool) (a b : A * B) : bool :=
+  ea (fst a) (fst b) && eb (snd a) (snd b).
+
 (* ---------- dict literal with enum keys: d[k] ---------- *)
 Fixpoint py_dict_get {K V} (eqb : K -> K -> bool) (d : list (K * V)) (k : K) : res V :=
   match d with
@@ -154,3 +164,116 @@ Definition evolve_position (p : position) (d : delta) : position :=
 (* ---------- game.WinReason is model/Road.v's `reason` ---------- *)
 Definition reason_eqb (a b : reason) : bool :=
   match a, b with Road, Road | Flats, Flats => true | _, _ => false end.
+
+(* ====================== strings ======================
+   A Python str is the list of its Unicode code points (Z), a character a code point.  len, s[i], s[a:b], +, for,
+   bool(s) are the list operations above. *)
+Definition pystr (s : string) : list Z := map (fun a => Z.of_nat (Ascii.nat_of_ascii a)) (list_ascii_of_string s).
+(* the code point of a one-character literal *)
+Definition ch (s : string) : Z := match pystr s with c :: _ => c | [] => 0 end.
+Arguments pystr s%string_scope.
+Arguments ch s%string_scope.
+Definition pystr_eqb (a b : list Z) : bool := list_eqb Z.eqb a b.
+
+(* s.split(sep) for a ONE-character separator: k occurrences give k+1 pieces, "".split(sep) = [""] *)
+Fixpoint py_split1 (sep : Z) (s : list Z) : list (list Z) :=
+  match s with
+  | [] => [[]]
+  | c :: t =>
+    if c =? sep then [] :: py_split1 sep t
+    else match py_split1 sep t with
+         | h :: r => (c :: h) :: r
+         | [] => [[c]]
+         end
+  end.
+
+(* sep.join(l) *)
+Fixpoint py_join (sep : list Z) (l : list (list Z)) : list Z :=
+  match l with
+  | [] => []
+  | a :: t => match t with [] => a | _ :: _ => a ++ sep ++ py_join sep t end
+  end.
+
+(* s.isascii(): every code point below 128 (true for "") *)
+Definition py_isascii (s : list Z) : bool := forallb (fun c => c <? 128) s.
+
+(* the code points c with chr(c).isdigit() (Unicode 15.0.0 as shipped with CPython 3.12), as inclusive ranges;
+   harness/props/t13.py recomputes the table from the running interpreter and compares it on every run *)
+Definition py_digit_ranges : list (Z * Z) :=
+  [(48, 57); (178, 179); (185, 185); (1632, 1641); (1776, 1785); (1984, 1993); (2406, 2415); (2534, 2543);
+   (2662, 2671); (2790, 2799); (2918, 2927); (3046, 3055); (3174, 3183); (3302, 3311); (3430, 3439); (3558, 3567);
+   (3664, 3673); (3792, 3801); (3872, 3881); (4160, 4169); (4240, 4249); (4969, 4977); (6112, 6121); (6160, 6169);
+   (6470, 6479); (6608, 6618); (6784, 6793); (6800, 6809); (6992, 7001); (7088, 7097); (7232, 7241); (7248, 7257);
+   (8304, 8304); (8308, 8313); (8320, 8329); (9312, 9320); (9332, 9340); (9352, 9360); (9450, 9450); (9461, 9469);
+   (9471, 9471); (10102, 10110); (10112, 10120); (10122, 10130); (42528, 42537); (43216, 43225); (43264, 43273); (43472, 43481);
+   (43504, 43513); (43600, 43609); (44016, 44025); (65296, 65305); (66720, 66729); (68160, 68163); (68912, 68921); (69216, 69224);
+   (69714, 69722); (69734, 69743); (69872, 69881); (69942, 69951); (70096, 70105); (70384, 70393); (70736, 70745); (70864, 70873);
+   (71248, 71257); (71360, 71369); (71472, 71481); (71904, 71913); (72016, 72025); (72784, 72793); (73040, 73049); (73120, 73129);
+   (73552, 73561); (92768, 92777); (92864, 92873); (93008, 93017); (120782, 120831); (123200, 123209); (123632, 123641); (124144, 124153);
+   (125264, 125273); (127232, 127242); (130032, 130041)].
+Definition py_isdigit_char (c : Z) : bool := existsb (fun r => (fst r <=? c) && (c <=? snd r)) py_digit_ranges.
+(* s.isdigit(): non-empty and every character a digit character *)
+Definition py_isdigit (s : list Z) : bool := truthy_list s && forallb py_isdigit_char s.
+
+(* sys.int_max_str_digits of the interpreter the code runs under (compared by t13 on every run) *)
+Definition py_int_max_str_digits : Z := 4300.
+
+(* int(s).  Modelled for strings of ASCII digits: the value, or ValueError when the string has more than
+   int_max_str_digits characters.  For every other string (signs, blanks, underscores, non-ASCII digits, junk)
+   PySem takes NO position: the outcome is `Crash Unmodelled`, which no equivalence theorem can absorb - the code has
+   to guard the call (as parse_tps does with isascii() / isdigit()) for the proofs to go through. *)
+Definition py_int_str (s : list Z) : res Z :=
+  if truthy_list s && forallb (fun c => (48 <=? c) && (c <=? 57)) s then
+    if py_int_max_str_digits <? zlen s then Crash ValueError
+    else Ok (fold_left (fun a c => 10 * a + (c - 48)) s 0)
+  else Crash Unmodelled.
+
+(* the decimal digits of n >= 0, most significant first (fuel log2 n + 1 is enough) *)
+Fixpoint py_digits_fuel (fuel : nat) (n : Z) (acc : list Z) : list Z :=
+  match fuel with
+  | O => acc
+  | S f =>
+    let acc' := (48 + n mod 10) :: acc in
+    if n <? 10 then acc' else py_digits_fuel f (n / 10) acc'
+  end.
+Definition py_digits (n : Z) : list Z := py_digits_fuel (S (Z.to_nat (Z.log2 n))) n [].
+(* str(n) / "{0}".format(n): ValueError when n has more than int_max_str_digits digits *)
+Definition py_str_int (n : Z) : res (list Z) :=
+  if 10 ^ py_int_max_str_digits <=? Z.abs n then Crash ValueError
+  else Ok (if n <? 0 then 45 :: py_digits (- n) else py_digits n).
+
+(* l * n for a list *)
+Definition py_list_repeat {A} (l : list A) (n : Z) : list A := concat (repeat l (Z.to_nat n)).
+
+(* a, b, c = l : ValueError unless l has exactly three elements *)
+Definition py_unpack3 {A} (l : list A) : res (A * A * A) :=
+  match l with [a; b; c] => Ok (a, b, c) | _ => Crash ValueError end.
+Definition py_unpack2 {A} (l : list A) : res (A * A) :=
+  match l with [a; b] => Ok (a, b) | _ => Crash ValueError end.
+
+(* try: c  except E: h   (only the named exception class is caught) *)
+Definition exn_eqb (a b : exn) : bool :=
+  match a, b with
+  | IndexError, IndexError | TypeError, TypeError | ValueError, ValueError | KeyError, KeyError
+  | AssertionError, AssertionError | AttributeError, AttributeError | ZeroDivisionError, ZeroDivisionError
+  | Unmodelled, Unmodelled | OutOfFuel, OutOfFuel => true
+  | _, _ => false
+  end.
+Definition py_try {A} (c : res A) (e : exn) (h : res A) : res A :=
+  match c with
+  | Crash e' => if exn_eqb e e' then h else c
+  | _ => c
+  end.
+
+(* the referenced list t[i] of a pair of lists replaced by its updated value (t[i][j] = v, t[i][j] += v) *)
+Definition py_tuple2_update {A} (t : A * A) (i : Z) (v : A) : res (A * A) :=
+  match py_index 2 i with
+  | Some 0 => Ok (v, snd t)
+  | Some _ => Ok (fst t, v)
+  | None => Crash IndexError
+  end.
+
+(* ---------- game.Config / Position(...) ---------- *)
+(* cls(size=, ply=, stones=, board=) over model/Tak.v's flat record *)
+Definition mk_position (sz : Z) (st : stonecounts * stonecounts) (pl : Z) (b : list stack) : position :=
+  mkPos sz (sc_stones (fst st)) (sc_caps (fst st)) (sc_stones (snd st)) (sc_caps (snd st)) pl b.
